@@ -209,6 +209,10 @@ func main() {
 		fmt.Println(strings.Join(names, "\n"))
 	case "replay":
 		replay(*file, *out)
+	case "detchild":
+		for _, l := range detOutputs(*seed, *n) {
+			fmt.Println(l)
+		}
 	default:
 		fn, ok := suites[cmd]
 		if !ok {
